@@ -116,3 +116,23 @@ def unstuff_lemmas(Obligation):
     ax = {"unstuff_frame": z3.ForAll([a, j, v, kk], z3.Implies(j >= kk, L(kk)), patterns=[ESC(Sx, kk), CNT(Sx, kk)]),
           "cnt_bounds": z3.ForAll([a, kk], z3.Implies(kk >= 0, B_(kk)), patterns=[CNT(a, kk)])}
     return obl, ax
+
+# ---- content of the un-stuffed octets: U(a,k,i) = i-th octet produced after consuming raw[0:k]
+U = z3.RecFunction("unstuffed_at", BYTE_ARR, I, I, BV8)
+_prev_esc = ESC(a, k_ - 1); _c = a[k_ - 1]
+z3.RecAddDefinition(U, [a, k_, i], z3.If(k_ <= 0, z3.BitVecVal(0, 8),
+    z3.If(_prev_esc, z3.If(i == CNT(a, k_ - 1), _c ^ 0x20, U(a, k_ - 1, i)),
+          z3.If(_c == 0x7D, U(a, k_ - 1, i), z3.If(i == CNT(a, k_ - 1), _c, U(a, k_ - 1, i))))))
+
+def unstuff_content_lemmas(Obligation):
+    obl = []; kk = z3.Int("kk"); Sx = z3.Store(a, j, v)
+    L = lambda k: U(Sx, k, i) == U(a, k, i)
+    fr = z3.And(ESC(Sx, kk - 1) == ESC(a, kk - 1), CNT(Sx, kk - 1) == CNT(a, kk - 1))     # instance of lemma unstuff_frame
+    obl.append(Obligation("lemma.unstuffed_at_frame#base", [kk <= 0, j >= kk], L(kk), use_axioms=False, kind="lemma"))
+    obl.append(Obligation("lemma.unstuffed_at_frame#step", [kk > 0, j >= kk, L(kk - 1), fr], L(kk), use_axioms=False, kind="lemma"))
+    R = lambda k: k <= 2 * CNT(a, k) + z3.If(ESC(a, k), 1, 0)
+    obl.append(Obligation("lemma.raw_length_bound#base", [kk == 0], R(kk), use_axioms=False, kind="lemma"))
+    obl.append(Obligation("lemma.raw_length_bound#step", [kk > 0, R(kk - 1)], R(kk), use_axioms=False, kind="lemma"))
+    ax = {"unstuffed_at_frame": z3.ForAll([a, j, v, kk, i], z3.Implies(j >= kk, L(kk)), patterns=[U(Sx, kk, i)]),
+          "raw_length_bound": z3.ForAll([a, kk], z3.Implies(kk >= 0, R(kk)), patterns=[CNT(a, kk)])}
+    return obl, ax
